@@ -102,8 +102,13 @@ theorem C10_rewrite_containers (p : Nat → Option Nat) :
 sorting permutation of the actor states): actor `i` — state, timers, pending choices, crash flag — moves to
 position `π i`; ids in actor states, envelopes, choices and history become `π id`; ids outside `0..n-1` and
 per-actor vectors shorter than `n` make both sides `none` (the real code panics).  Timer VALUES are moved but
-not rewritten (`applyPerm false`): `Timers::rewrite` is `clone` — see `C10_timer_ids_not_rewritten`. -/
-theorem C10_representative {s m t r hist : Ty} (st : St s m t r hist) :
+not rewritten (`applyPerm false`): `Timers::rewrite` is `clone`.
+
+FULL statement (DESIGN §5.C10): `representative st = applyPerm true (planOf st.actors) st`, i.e. ids inside timer
+values renamed as well.  It is FALSE of the current code when the timer type carries ids
+(`C10_timer_ids_not_rewritten`, concrete witness) and TRUE whenever rewriting leaves the timer sets alone
+(`C10_representative`, in particular for every id-free timer type). -/
+theorem C10_representative_partial {s m t r hist : Ty} (st : St s m t r hist) :
     representative st = applyPerm false (planOf (leVal s) st.actors) st := by
   have hl := planOf_length (leVal s) st.actors
   have hperm : (planOf (leVal s) st.actors).Perm (List.range (planOf (leVal s) st.actors).length) := by
@@ -111,6 +116,17 @@ theorem C10_representative {s m t r hist : Ty} (st : St s m t r hist) :
   unfold representative applyPerm
   simp only [reindexO_eq_place hperm, mapM_id_some, Option.bind_some, Bool.false_eq_true, if_false,
     Option.bind_eq_bind, Option.bind_assoc]
+
+/-- (b) the full-strength statement, for states whose timer sets are unchanged by the rewrite (every id-free
+timer type: `()`, integers, strings, fieldless enums, …). -/
+theorem C10_representative {s m t r hist : Ty} (st : St s m t r hist)
+    (hT : ∀ x ∈ st.timers.take (planOf (leVal s) st.actors).length,
+      rwVal (planFn (planOf (leVal s) st.actors)) (Ty.timers t) x = some x) :
+    representative st = applyPerm true (planOf (leVal s) st.actors) st := by
+  rw [C10_representative_partial]
+  unfold applyPerm
+  simp only [if_true, Bool.false_eq_true, if_false]
+  rw [mapM_congr' _ some _ hT]
 
 /-- what "image under one permutation" means, spelled out: whenever `applyPerm` succeeds for a permutation `π`
 of `0..n-1`, position `π i` of every per-actor vector holds actor `i`'s (rewritten) entry, and network and
@@ -169,6 +185,44 @@ theorem C10_applyPerm_spec {s m t r hist : Ty} (b : Bool) (π : List Nat)
   refine ⟨la, lt, lk, lc, rfl, rfl, fun i hi => ⟨pa i hi, pt i hi, ?_, pc i hi⟩⟩
   have := pk i hi
   cases hx : st.crashed[i]? <;> simpa [hx] using this
+
+/-! ### timer VALUES that carry ids are not rewritten (divergence from the full-strength reading)
+
+`impl Rewrite<Id> for Timers<T>` is `self.clone()` (it does not even require `T: Rewrite<Id>`), so a timer whose
+value mentions an actor id keeps the OLD id while everything else is renamed: the representative is then NOT
+the image of the state under one permutation "applied consistently to … timers".  Witness below; confirmed on
+the implementation by harness/src/bin/c10.rs (`timer-id-witness`).  For Id-free timer types (the usual case:
+`()`, small enums) `applyPerm true` and `applyPerm false` coincide and `C10_representative` is the full claim. -/
+
+/-- two actors with states 1 and 0 (so the plan swaps them); actor 0 holds a timer whose VALUE is `Id(0)` (itself) -/
+def wit : St .u8 .u8 .id .u8 .unit :=
+  { actors := ([1, 0] : List Nat), history := (), timers := ([[0], []] : List (List Nat)),
+    net := (Sum.inr (Sum.inr ([] : List ((Nat × Nat) × List Nat)))),
+    crashed := [false, false], choices := [[], []] }
+
+theorem C10_example_plan : planOf (fun (a b : Nat) => compare a b != Ordering.gt) [1, 0] = [1, 0] := by
+  have c : compare (1 : Nat) 0 = Ordering.gt := by decide
+  simp [DNM.planOf, List.mergeSort, List.MergeSort.Internal.splitInTwo, List.merge, List.range, List.range.loop,
+    List.zip, List.zipWith, c]
+
+theorem C10_witness_plan : planOf (leVal .u8) wit.actors = [1, 0] := C10_example_plan
+
+def timersOf (o : Option (St .u8 .u8 .id .u8 .unit)) : Option (List (List Nat)) := o.map (·.timers)
+
+/-- the code: the timer moves with its actor to position 1 but still says `Id(0)` -/
+theorem C10_witness_code : timersOf (representative wit) = some [[], [0]] := by
+  rw [C10_representative_partial, C10_witness_plan]
+  decide
+
+/-- the image under the permutation: the timer says `Id(1)`, the actor's new name -/
+theorem C10_witness_image : timersOf (applyPerm true (planOf (leVal .u8) wit.actors) wit) = some [[], [1]] := by
+  rw [C10_witness_plan]
+  decide
+
+/-- hence: with id-carrying timer values the representative is not the image under the plan's permutation -/
+theorem C10_timer_ids_not_rewritten :
+    timersOf (representative wit) ≠ timersOf (applyPerm true (planOf (leVal .u8) wit.actors) wit) := by
+  rw [C10_witness_code, C10_witness_image]; decide
 
 -- (c) reduction: lead
 
